@@ -465,6 +465,11 @@ func entryJobs(thorough, lite bool) []job {
 	add("LIM", lim, "", profCorpus, 2)
 	add("LIM", lim, "R", profCorpus, 2)
 	add("ALTB", altBranchFamily(false), "", profP0, 3)
+	// case-insensitive patterns on inputs that hold BOTH cases of the same letters (the fixed profiles give every
+	// letter one case): the string entry points go through byte-level case-insensitive pre-filters of their own
+	profCase := profile{name: "P0-case-pairs {a,A,b,B}", m: map[rune]rune{}, input: []rune{'a', 'A', 'b', 'B'}}
+	add("LITAB", litABFamily(false), "i", profCase, 5)
+	add("ALTB", altBranchFamily(false), "i", profCase, 4)
 	for _, pr := range []profile{profP0, profP2, profP4} {
 		add("BAL", bal, "", pr, 5)
 		add("BAL", bal, "R", pr, 5)
